@@ -52,7 +52,7 @@ void mon_c11(CaseCtx &c, Rng &rng){
     TasmanianSparseGrid C4 = TasGrid::copyGrid(S, 0, -1);
     struct Tw{ const char *name; TasmanianSparseGrid *g; } tw[] = {{"copy-constructor", &C1}, {"assignment", &C2}, {"copyGrid", &C3}, {"copyGrid-free-function", &C4}};
     for(auto &t : tw){
-        std::string df = obs_diff(o, observe(*t.g, oo));
+        std::string df = obs_diff_state(o, observe(*t.g, oo));
         if (!df.empty()){ c.viol(std::string("copy:") + t.name + ":" + df + ":" + cls, J().str("field", df).obj()); return; }
     }
     c.count("copies_compared", 4);
@@ -63,7 +63,7 @@ void mon_c11(CaseCtx &c, Rng &rng){
         TasmanianSparseGrid R; R.copyGrid(S, b, e);
         Obs ro = observe(R, oo);
         Obs expect = restrict_obs(o, d, m, b, e);
-        std::string df = obs_diff(expect, ro);
+        std::string df = obs_diff_state(expect, ro);
         if (!df.empty()){ c.viol("subrange:" + df + ":" + cls, J().str("field", df).i("begin", b).i("end", e).i("outputs", m).obj()); return; }
         c.count("subranges_compared");
         // one lock-step data delivery restricted to the range
@@ -86,10 +86,17 @@ void mon_c11(CaseCtx &c, Rng &rng){
                 if (S.isUsingConstruction()){ S.loadConstructedPoints(x, y); R.loadConstructedPoints(x, yr); }
                 else{ S.loadNeededValues(y); R.loadNeededValues(yr); }
                 Obs o2 = observe(S, oo);
-                std::string df2 = obs_diff(restrict_obs(o2, d, m, b, e), observe(R, oo));
+                std::string df2 = obs_diff_state(restrict_obs(o2, d, m, b, e), observe(R, oo));
                 if (!df2.empty()){ c.viol("subrange:after-delivery:" + df2 + ":" + cls, J().str("field", df2).i("begin", b).i("end", e).obj()); return; }
                 // bring the full copies to the same state for the independence checks below
-                for(auto &t : tw){ if (S.isUsingConstruction()) t.g->loadConstructedPoints(x, y); else t.g->loadNeededValues(y); }
+                for(auto &t : tw){
+                    if (S.isUsingConstruction()){
+                        // candidate requests are not const (they register candidate tensors): issue the same request on the copies to stay in lock-step
+                        if (S.isLocalPolynomial() || S.isWavelet()) (void) t.g->getCandidateConstructionPoints(0.0, refine_classic, b);
+                        else (void) t.g->getCandidateConstructionPoints(type_level, std::vector<int>((size_t) d, 1));
+                        t.g->loadConstructedPoints(x, y);
+                    }else t.g->loadNeededValues(y);
+                }
                 o = o2;
                 c.count("subrange_deliveries");
             }
@@ -105,9 +112,9 @@ void mon_c11(CaseCtx &c, Rng &rng){
             std::string er = apply_step(hc.g, s, &hc);
             if (!er.empty()){ c.viol("copy:mutation-exception:" + s.name() + ":" + cls, J().str("what", er).kv("step", s.json()).obj()); return; }
         }
-        std::string df = obs_diff(o, observe(S, oo));
+        std::string df = obs_diff_state(o, observe(S, oo));
         if (!df.empty()){ c.viol("independence:source-changed-by-mutating-copy:" + df + ":" + cls, J().str("field", df).obj()); return; }
-        df = obs_diff(o, observe(C2, oo));
+        df = obs_diff_state(o, observe(C2, oo));
         if (!df.empty()){ c.viol("independence:sibling-copy-changed:" + df + ":" + cls, J().str("field", df).obj()); return; }
     }
     // mutate the source, copies must not move
@@ -119,14 +126,14 @@ void mon_c11(CaseCtx &c, Rng &rng){
             std::string er = apply_step(h.g, s, &h);
             if (!er.empty()){ c.viol("copy:mutation-exception:" + s.name() + ":" + cls, J().str("what", er).kv("step", s.json()).obj()); return; }
         }
-        std::string df = obs_diff(o, observe(C2, oo));
+        std::string df = obs_diff_state(o, observe(C2, oo));
         if (!df.empty()){ c.viol("independence:copy-changed-by-mutating-source:" + df + ":" + cls, J().str("field", df).obj()); return; }
     }
     // destroy the source, then use the copies fully (ASan decides)
     hp.reset();
     {
         Obs o3 = observe(C3, oo);
-        std::string df = obs_diff(o, o3);
+        std::string df = obs_diff_state(o, o3);
         if (!df.empty()){ c.viol("independence:copy-changed-by-destroying-source:" + df + ":" + cls, J().str("field", df).obj()); return; }
         HState hc; hc.g = C3; hc.cfg.family = C3.isGlobal() ? fam_global : C3.isSequence() ? fam_sequence : C3.isLocalPolynomial() ? fam_localp : C3.isWavelet() ? fam_wavelet : fam_fourier;
         hc.cfg.dims = d; hc.cfg.outs = m; hc.cfg.depth = 3; hc.cfg.custom = (C3.getRule() == rule_customtabulated) ? 1 : 0; hc.gen = 50;
